@@ -416,7 +416,10 @@ func unquoteChar(s string, info QuoteInfo) (value rune, multibyte bool, tail str
 		case 'U':
 			n = 8
 		}
-		var v rune
+		// Accumulate in an unsigned type: eight hex digits do not fit in a
+		// rune (int32), and a wrapped negative value must never be mistaken
+		// for one of the special values above.
+		var v uint32
 		if len(s) < n {
 			err = errSyntax
 			return
@@ -427,7 +430,7 @@ func unquoteChar(s string, info QuoteInfo) (value rune, multibyte bool, tail str
 				err = errSyntax
 				return
 			}
-			v = v<<4 | x
+			v = v<<4 | uint32(x)
 		}
 		s = s[n:]
 		if c == 'x' {
@@ -436,14 +439,14 @@ func unquoteChar(s string, info QuoteInfo) (value rune, multibyte bool, tail str
 				return
 			}
 			// single-byte string, possibly not UTF-8
-			value = v
+			value = rune(v)
 			break
 		}
 		if v > utf8.MaxRune {
 			err = errSyntax
 			return
 		}
-		value = v
+		value = rune(v)
 		multibyte = true
 	case '0', '1', '2', '3', '4', '5', '6', '7':
 		if info.char == '"' {
